@@ -287,7 +287,9 @@ func (s *vC03Sys) observe(h []string) {
 		}
 	}
 	// multi-query aggregation (k large enough that no per-query list is truncated)
-	combos := [][]string{{"a", "b"}, {"a", "a b", "c"}, {"z", "a"}}
+	// (the last three: queries of one search that differ only in padding - white space and
+	// punctuation segments are tokens, so each is a query of its own)
+	combos := [][]string{{"a", "b"}, {"a", "a b", "c"}, {"z", "a"}, {"a", "a "}, {" b", "b", "b\u00a0"}, {"a", "a.", "A"}}
 	for ci, combo := range combos {
 		for _, agg := range []ScoreAggregationKind{SumAggregation, MaxAggregation, MeanAggregation} {
 			for _, k := range []int{-1, len(s.docs) + 10} {
